@@ -6,7 +6,7 @@
 From Coq Require Import List Bool ZArith String.
 From XV Require Import Base.Res Base.Assoc Base.Ops Base.Seq1D Base.Tensor
      Model.Axis Model.GridCtor Model.Pad Model.GridOps Model.GridOpsTable Model.Dispatch Model.Cumsum
-     Model.Signature Model.UFunc Model.Transform Model.Refuse Proofs.P11 Proofs.P20.
+     Model.Signature Model.UFunc Model.Transform Model.Refuse Model.Registry Model.Metrics Proofs.P10 Proofs.P11 Proofs.P20.
 Import ListNotations.
 Open Scope string_scope.
 Open Scope nat_scope.
@@ -167,6 +167,15 @@ Print Assumptions C20_ufunc_number.
 Print Assumptions C20_ufunc_axis.
 Print Assumptions C20_ufunc_position.
 Print Assumptions C20_ctor.
+
+(* The metric operations (get_metric, hence integrate / average / cumint / derivative and every
+   metric_weighted call): a request naming an axis the grid lacks, or made for an array that lacks --
+   or has two -- dimensions of a requested axis, is refused, whatever has been registered. *)
+Theorem C20_metric : forall axis_dims reg array_dims axes,
+  ill_posed_metric axis_dims array_dims axes = true ->
+  exists e, get_metric axis_dims reg array_dims axes = Err e.
+Proof. exact get_metric_refuses. Qed.
+Print Assumptions C20_metric.
 
 (* Non-vacuity: a concrete valid call succeeds, and the same call with one edit from each
    class of the first group is refused by computation. *)
